@@ -10,7 +10,7 @@
 mod defs;
 
 use defs::*;
-use logos::{Lexer, SpannedIter};
+use logos::{Lexer, Logos, SpannedIter};
 use simcore::*;
 
 // ---------------------------------------------------------------------------------------------
@@ -414,6 +414,67 @@ fn gen_fault_operand(rng: &mut Rng, m: &M, src: &[u8], is_str: bool) -> u64 {
             }
         }
     }
+}
+
+/// `spanned()` "yields exactly the (item, span) pairs of manual iteration" whichever way the iterator is consumed: the
+/// provided methods of `Iterator` that an implementation may override (`last`, `nth`, `count`, `fold`, `size_hint`) are
+/// compared with the manually collected pairs, for the spanned iterator and for the lexer itself. `manual` must be a
+/// complete iteration (ended by `None`). Returns a description of the first disagreement.
+fn adaptor_mismatch<'s, T>(l: &Lexer<'s, T>, manual: &[(String, (usize, usize))]) -> Option<String>
+where
+    T: Logos<'s> + std::fmt::Debug + Clone,
+    T::Extras: Clone,
+    T::Error: std::fmt::Debug,
+{
+    let f = |(t, s): (Result<T, T::Error>, std::ops::Range<usize>)| (format!("{:?}", t), (s.start, s.end));
+    let n = manual.len();
+    let k = n / 2;
+    let got = l.clone().spanned().last().map(f);
+    if got.as_ref() != manual.last() {
+        return Some(format!("spanned().last() = {:?} but the last pair of manual iteration is {:?}", got, manual.last()));
+    }
+    let got = l.clone().spanned().nth(k).map(f);
+    if got.as_ref() != manual.get(k) {
+        return Some(format!("spanned().nth({}) = {:?} but manual iteration gives {:?}", k, got, manual.get(k)));
+    }
+    let mut it = l.clone().spanned();
+    let first = it.nth(0).map(f);
+    let rest: Vec<_> = it.map(f).collect();
+    if first.as_ref() != manual.first() || (n > 0 && rest[..] != manual[1..]) {
+        return Some(format!("spanned(): nth(0) followed by the rest = {:?} + {:?} but manual iteration gives {:?}", first, rest, manual));
+    }
+    let got = l.clone().spanned().count();
+    if got != n {
+        return Some(format!("spanned().count() = {} but manual iteration yields {} pairs", got, n));
+    }
+    let got = l.clone().spanned().fold(Vec::new(), |mut v, x| { v.push(f(x)); v });
+    if got[..] != manual[..] {
+        return Some(format!("spanned().fold(..) saw {:?} but manual iteration gives {:?}", got, manual));
+    }
+    let (lo, hi) = l.clone().spanned().size_hint();
+    if lo > n || hi.map_or(false, |h| h < n) {
+        return Some(format!("spanned().size_hint() = ({}, {:?}) but the iterator yields {} pairs", lo, hi, n));
+    }
+    // the lexer itself
+    let g = |t: Result<T, T::Error>| format!("{:?}", t);
+    let got = l.clone().last().map(g);
+    if got.as_ref() != manual.last().map(|p| &p.0) {
+        return Some(format!("Lexer::last() = {:?} but the last item of manual iteration is {:?}", got, manual.last().map(|p| &p.0)));
+    }
+    let mut lx = l.clone();
+    let got = lx.nth(k).map(g);
+    if got.as_ref() != manual.get(k).map(|p| &p.0) || (got.is_some() && (lx.span().start, lx.span().end) != manual[k].1) {
+        return Some(format!("Lexer::nth({}) = {:?} at {:?} but manual iteration gives {:?}", k, got, lx.span(), manual.get(k)));
+    }
+    let got = l.clone().count();
+    if got != n {
+        return Some(format!("Lexer::count() = {} but manual iteration yields {} items", got, n));
+    }
+    let (lo, hi) = l.clone().size_hint();
+    if lo > n || hi.map_or(false, |h| h < n) {
+        return Some(format!("Lexer::size_hint() = ({}, {:?}) but the lexer yields {} items", lo, hi, n));
+    }
+    None
 }
 
 macro_rules! violation {
@@ -1025,6 +1086,20 @@ macro_rules! pair_sim {
                                             "handle {}: spanned().collect() = {:?} but manual iteration of a clone gives {:?}", h, a, b));
                                     } else if a.len() >= cap {
                                         stats.hit("probe_drain_hit_cap");
+                                    } else {
+                                        // the same pairs through the other ways of consuming an iterator
+                                        let mm = catch(|| match &handles[h] {
+                                            H::LA(l) => adaptor_mismatch(l, &b),
+                                            H::LB(l) => adaptor_mismatch(l, &b),
+                                            _ => unreachable!(),
+                                        });
+                                        stats.hit("op_drain_through_last_nth_count_fold");
+                                        match mm {
+                                            Ok(None) => {}
+                                            Ok(Some(what)) => violation = Some(violation!("SPANNED-adaptor", stepno, opkind, format!("def{}", models[h].def), "handle {}: {}", h, what)),
+                                            Err(p) => violation = Some(violation!("SPANNED-adaptor", stepno, opkind, format!("def{}", models[h].def),
+                                                "handle {}: consuming a clone through last()/nth()/count()/fold() panicked although manual iteration did not: {}", h, p)),
+                                        }
                                     }
                                 }
                                 Ok((Err(_), Err(_))) => stats.hit("fault_fired_bump_inside_callback_during_drain"),
